@@ -249,6 +249,9 @@ type Config struct {
 	MaxDepth  int // nesting depth of generated structs
 	MaxFields int
 	MaxElems  int // collection sizes
+	// FocusTypeRules forces the interface slices to carry at-most-one-of-each-type / must-occur rules and puts one of
+	// them first into the root struct, so that these (otherwise rare) rule classes are exercised on purpose.
+	FocusTypeRules bool
 }
 
 // QuickConfig / ThoroughConfig are the two tiers.
@@ -450,7 +453,11 @@ func (c *Case) drawPoolSettings(t *rapid.T) {
 	}
 	// interface slices with type rules
 	ss := drawCollSettings(t, "NSlShape", true, me)
-	switch rapid.IntRange(0, 3).Draw(t, "NSlShape.typerules") {
+	shapeRule := rapid.IntRange(0, 3).Draw(t, "NSlShape.typerules")
+	if c.Cfg.FocusTypeRules && shapeRule == 3 {
+		shapeRule = 2
+	}
+	switch shapeRule {
 	case 0:
 		ss.AtMostOne = 1
 	case 1:
@@ -467,7 +474,11 @@ func (c *Case) drawPoolSettings(t *rapid.T) {
 	}
 	c.reg[tof(NSlShape(nil))] = &regEntry{S: ss}
 	sp := drawCollSettings(t, "NSlPay", true, me)
-	switch rapid.IntRange(0, 2).Draw(t, "NSlPay.typerules") {
+	payRule := rapid.IntRange(0, 2).Draw(t, "NSlPay.typerules")
+	if c.Cfg.FocusTypeRules && payRule == 2 {
+		payRule = 1
+	}
+	switch payRule {
 	case 0:
 		sp.AtMostOne = 4
 	case 1:
@@ -830,7 +841,17 @@ func (c *Case) genStruct(t *rapid.T, depth int, label string) *Node {
 			}
 		}
 		anonymous := false
-		switch rapid.IntRange(0, 17).Draw(t, fl+".kind") {
+		fieldKind := rapid.IntRange(0, 17).Draw(t, fl+".kind")
+		if c.Cfg.FocusTypeRules && depth == 0 && i == 0 {
+			fieldKind = 18
+		}
+		switch fieldKind {
+		case 18:
+			if rapid.Bool().Draw(t, fl+".payslice") {
+				f.N = c.nNamedSlice(tof(NSlPay(nil)), "NSlPay", c.nPayload(0))
+			} else {
+				f.N = c.nNamedSlice(tof(NSlShape(nil)), "NSlShape", c.nShape())
+			}
 		case 0, 1, 2:
 			f.N = c.genFixedLeaf(t, fl)
 		case 3:
